@@ -1192,7 +1192,8 @@ func (p *PairV2) orderSellLoadToIndex(index int) *Limit {
 	} else {
 		num := index
 		for {
-			orders = append(orders, p.loadSellOrders(p, fromOrder, num+1)...)
+			loaded := p.loadSellOrders(p, fromOrder, num+1)
+			orders = append(orders, loaded...)
 			num = 0
 			if p.hasUnsortedSellOrders() || p.hasDeletedSellOrders() {
 				orders, num = p.updateDirtyOrders(orders, true)
@@ -1200,9 +1201,10 @@ func (p *PairV2) orderSellLoadToIndex(index int) *Limit {
 			if num <= 0 {
 				break
 			}
-			lenOrders := len(orders)
-			if lenOrders != 0 && orders[lenOrders-1] != 0 {
-				fromOrder = p.order(orders[lenOrders-1])
+			// continue after the last order read from disk, even when it was filtered out as deleted
+			lenLoaded := len(loaded)
+			if lenLoaded != 0 && loaded[lenLoaded-1] != 0 {
+				fromOrder = p.order(loaded[lenLoaded-1])
 			} else {
 				break
 			}
